@@ -69,30 +69,33 @@ def _c16_units():
     us = []
     pairs = [(0, 1), (0, 2), (1, 0), (1, 1), (1, 2), (1, 3), (2, 0), (2, 1), (2, 2), (2, 3), (3, 1), (3, 2), (3, 3)]
     src = "fontir/src/feature_variations.rs"
-    for la, lb in pairs:
+    thorough_pairs = [(4, 1), (1, 4), (4, 3), (3, 4), (4, 4), (5, 2), (2, 5)]
+    for la, lb in pairs + thorough_pairs:
+        tiers = ["thorough"] if (la, lb) in thorough_pairs else ["quick", "thorough"]
         bound = f"self has exactly {la} stored u64 words, rhs exactly {lb}; word contents arbitrary (rule indices < {64 * max(la, lb, 1)})"
         us.append(dict(obligation=f"c16_rank_bitor_{la}_{lb}", engine="kani", crate="fontir", src=src,
                        functions=["fontir::feature_variations::<&Rank as BitOr<&Rank>>::bitor"], klass="bounded", domain=bound,
                        pre="a, b arbitrary ranks of the stated word counts", post="val(&a | &b) == val(a) | val(b) (word-wise, aligned at the least significant word)",
-                       kind="obligation", tiers=["quick", "thorough"], timeout_s=300))
+                       kind="obligation", tiers=tiers, timeout_s=600))
         us.append(dict(obligation=f"c16_rank_bitor_assign_{la}_{lb}", engine="kani", crate="fontir", src=src,
                        functions=["fontir::feature_variations::<Rank as BitOrAssign<&Rank>>::bitor_assign"], klass="bounded", domain=bound,
                        pre="a, b arbitrary ranks of the stated word counts", post="after a |= &b: val(a') == val(a) | val(b)",
-                       kind="obligation", tiers=["quick", "thorough"], timeout_s=300))
+                       kind="obligation", tiers=tiers, timeout_s=600))
         us.append(dict(obligation=f"c16_rank_eq_{la}_{lb}", engine="kani", crate="fontir", src=src,
                        functions=["fontir::feature_variations::<Rank as PartialEq>::eq"], klass="bounded", domain=bound,
                        pre="a, b arbitrary ranks of the stated word counts", post="(a == b) <=> val(a) == val(b); leading zero words are insignificant",
-                       kind="obligation", tiers=["quick", "thorough"], timeout_s=300))
-    for l in range(4):
+                       kind="obligation", tiers=tiers, timeout_s=600))
+    for l in range(6):
+        tiers = ["thorough"] if l >= 4 else ["quick", "thorough"]
         bound = f"exactly {l} stored u64 words, contents arbitrary"
         us.append(dict(obligation=f"c16_rank_shift_{l}", engine="kani", crate="fontir", src=src,
                        functions=["fontir::feature_variations::Rank::right_shift_one"], klass="bounded", domain=bound,
                        pre="a arbitrary", post="val(a') == val(a) / 2 (bit 0 of word j+1 moves into bit 63 of word j)",
-                       kind="obligation", tiers=["quick", "thorough"], timeout_s=300))
+                       kind="obligation", tiers=tiers, timeout_s=600))
         us.append(dict(obligation=f"c16_rank_probe_{l}", engine="kani", crate="fontir", src=src,
                        functions=["fontir::feature_variations::Rank::first_bit_is_set", "fontir::feature_variations::Rank::is_all_zeros"], klass="bounded", domain=bound,
                        pre="a arbitrary", post="first_bit_is_set <=> val odd; is_all_zeros <=> val == 0",
-                       kind="obligation", tiers=["quick", "thorough"], timeout_s=300))
+                       kind="obligation", tiers=tiers, timeout_s=600))
     us.append(dict(obligation="c16_rank_new_is_power_of_two", engine="kani", crate="fontir", src=src,
                    functions=["fontir::feature_variations::Rank::new"], klass="bounded", domain="rule index i < 192 (1..3 words)",
                    pre="i < 192", post="val(Rank::new(i)) == 2^i", kind="obligation", tiers=["quick", "thorough"], timeout_s=300))
@@ -150,6 +153,10 @@ UNITS["C08"] = [
        "sorted 3-node map", "map at a duplicated `from` returns the FIRST node's `to` (ufo2ft #978)"),
     _k("c08_plm_reverse_inverts_at_nodes_3", "fontdrasil", _PLM, [_PLMF + "reverse", _PLMF + "map"], "bounded", "exactly 3 nodes, strictly increasing from and to",
        "strictly monotone 3-node map", "reverse() is well-formed and reverse().map(to[k]) == from[k]"),
+    _k("c08_plm_map_exact_at_nodes_4", "fontdrasil", _PLM, [_PLMF + "map"], "bounded", "exactly 4 nodes, non-decreasing `from` (duplicates allowed)",
+       "sorted 4-node map", "map(from[k]) == to[first node with that from]", tiers=("thorough",), timeout_s=1800),
+    _k("c08_plm_new_sorted_permutation_4", "fontdrasil", _PLM, [_PLMF + "new"], "bounded", "exactly 4 mapping pairs",
+       "4 finite pairs", "from sorted ascending; output pairs are a permutation of the input pairs", tiers=("thorough",), timeout_s=1800),
     _k("c08_avar_default_segment_map_is_required_triple", "fontbe", "fontbe/src/avar.rs", ["fontbe::avar::default_segment_map"], "complete", "no inputs",
        "-", "exactly the three maps -1:-1, 0:0, 1:1 in increasing order"),
     _k("c08_plm_cover", "fontdrasil", _PLM, [], "complete", "", "", "node branch and extrapolation branch reachable with a non-trivial map", kind="cover"),
@@ -195,7 +202,7 @@ UNITS["C13"] = [
     _k("c13_lexer_contract_inputs_up_to_2_bytes", "fea-rs", "fea-rs/src/parse/lexer.rs", ["fea_rs::parse::lexer::Lexer::next_token (real, unextracted)"], "bounded",
        "every valid UTF-8 input of <= 2 bytes, first three tokens", "valid UTF-8, |input| <= 2", "T1, T2, T3 on each of the first three next_token calls; third lexeme is Eof", timeout_s=900, companion=True, on_demand=True),
     _k("c13_lexer_contract_inputs_of_3_bytes", "fea-rs", "fea-rs/src/parse/lexer.rs", ["fea_rs::parse::lexer::Lexer::next_token (real, unextracted)"], "bounded",
-       "every valid UTF-8 input of exactly 3 bytes, first two tokens", "valid UTF-8, |input| == 3", "T1, T2, T3 on the first two next_token calls", tiers=("thorough",), timeout_s=3600),
+       "every valid UTF-8 input of exactly 3 bytes, first two tokens", "valid UTF-8, |input| == 3", "lexer starts at byte 0; T1, T2, T3 on the first two next_token calls", timeout_s=3600, on_demand=True),
     _k("c13_from_keyword_never_eof", "fea-rs", "fea-rs/src/parse/lexer/lexeme.rs", ["fea_rs::parse::lexer::lexeme::Kind::from_keyword"], "bounded",
        "every byte word of length <= 26 (longest keyword has 25 bytes)", "|word| <= 26", "result is never Some(Eof/Tombstone/Ident/Whitespace); empty word => None  (the contract the Verus proof assumes for this external_body function)", timeout_s=900),
     _k("c13_lexer_cover", "fea-rs", "fea-rs/src/parse/lexer.rs", [], "complete", "", "", "identifier, non-ASCII character, number reachable in the companion's input generator", kind="cover", timeout_s=1800, on_demand=True),
